@@ -71,12 +71,17 @@ Definition dec_input (x : sx) : option rinput :=
   end.
 
 (* Component: what the property fixes is the ORDER of the handler calls (arrival order),
-   not how they interleave with the loop's other actions (a component may hand its packets
-   to a dispatching goroutine): handler calls first, in order, then the other actions, in order. *)
+   not how they interleave with the loop's other actions, nor the order of those among
+   themselves (a component may hand its packets to a dispatching goroutine while it goes on
+   reading): handler calls first, in order, then the other actions counted by kind. *)
 Definition is_route_sx (x : sx) : bool :=
   match x with SL (SZ 0 :: _) => true | _ => false end.
+Definition tag_is (t : Z) (x : sx) : bool :=
+  match x with SL (SZ u :: _) => Z.eqb t u | _ => false end.
+(* the other actions as a multiset: how many of each kind (2..9) *)
 Definition partition_routes (l : list sx) : list sx :=
-  filter is_route_sx l ++ filter (fun x => negb (is_route_sx x)) l.
+  filter is_route_sx l ++
+  map (fun t => SL [SZ t; SZ (Z.of_nat (length (filter (tag_is t) l)))]) [2; 3; 4; 5; 6; 7; 8; 9]%Z.
 
 Definition run_typed (i : rinput) : sx :=
   let tr := if r_component i then precv (r_items i)
